@@ -31,6 +31,8 @@ pub struct Ctx {
     /// scale factor for workload sizes (testing the harness itself)
     pub scale_pct: u64,
     pub replay: Option<String>,
+    /// very small workloads (the run is interpreted by Miri)
+    pub tiny: bool,
 }
 
 impl Ctx {
